@@ -427,7 +427,7 @@ func (env *Env) elabCall(n ECall) (string, SType, error) {
 		if st.T == nil || !ok {
 			return "", tBool, fmt.Errorf("elems of non-slice %s", st)
 		}
-		return fmt.Sprintf("(select %s (s_arr %s))", env.heap(w.heapArr(sl.Elem())), t), SType{Abs: "(Array Int " + w.sortOf(sl.Elem()) + ")"}, nil
+		return fmt.Sprintf("(select %s (s_arr %s))", env.heap(w.heapArr(sl.Elem())), t), SType{Abs: "(Array Int " + w.sortOf(sl.Elem()) + ")", Elem: sl.Elem()}, nil
 	case "off":
 		t, _, err := env.elab(n.Args[0])
 		if err != nil {
@@ -495,6 +495,9 @@ func (env *Env) elabCall(n ECall) (string, SType, error) {
 		}
 		r := fmt.Sprintf("(select %s (addi %s %s))", a, o, j)
 		env.trigger(r, j)
+		if ast.Elem != nil {
+			st = SType{T: ast.Elem}
+		}
 		return r, st, nil
 	case "sel": // sel(a, i): element of a raw SMT array
 		a, ast, err := env.elab(n.Args[0])
